@@ -157,6 +157,10 @@ def run(ctx: Ctx) -> Result:
         reqs.append(({**base, 'kind': None, 'rejected_installs': [f'FORK_{code}', f'fork{code}'], 'compile': srcs_old, 'decompile': [bytes([code, 3]).hex()]}, 'rejected-install'))
         for kind in (FORK_KINDS if ctx.tier == 'thorough' else FORK_KINDS[:4] + [rng.choice(FORK_KINDS[4:])]):
             reqs.append(({**base, 'kind': kind, 'compile': srcs_new, 'decompile': [bytes([code, 3]).hex()]}, kind))
+        # history: an earlier fork at another byte had claimed the same aliases; after this install name and aliases reach THIS byte
+        other = next(c for c in reversed(free) if c != code)
+        reqs.append(({**base, 'kind': FORK_KINDS[0], 'earlier_installs': [{'code': other, 'name': f'OP_OLDFORK_{other}', 'aliases': base['aliases']}],
+                      'compile': srcs_new, 'decompile': [bytes([code, 3]).hex()]}, FORK_KINDS[0]))
     with ThreadPoolExecutor(12) as ex:
         answers = list(ex.map(lambda r: worker(r[0]), reqs))
     base_by_code = {}
